@@ -486,6 +486,7 @@ func checkC11(ctx *core.Ctx, rep *core.Report) {
 				rep.InternalError("document %q does not parse: %v", d.desc, err)
 				continue
 			}
+			var gotFull *zlint.ResultSet
 			regs := []lint.Registry{fullCopy()}
 			if (di+ti)%4 == 0 {
 				// a registry filtered to one source family still honours the configuration
@@ -518,6 +519,9 @@ func checkC11(ctx *core.Ctx, rep *core.Report) {
 					rep.Violate(b[0], b[1]+" [document "+d.desc+", seed "+tg.sd.Name+"]", art)
 				}
 				if ri == 0 {
+					gotFull = got
+				}
+				if ri == 0 {
 					for n, e := range d.expect {
 						if e != "option" {
 							continue
@@ -539,6 +543,45 @@ func checkC11(ctx *core.Ctx, rep *core.Report) {
 								rep.Violate("C11|"+n+"|leak_between_runs", fmt.Sprintf("%s: after removing the configuration the verdict stays %s (baseline %s) [document %s]", n, b.Status, bb.Status, d.desc), art)
 							}
 						}
+					}
+				}
+			}
+			// a registry from which the lint the document speaks to has been DESELECTED: the section is still a valid section
+			// of a known lint — it changes nothing, produces nothing, and nothing is reported under its name
+			if (di+ti)%3 == 0 && gotFull != nil {
+				for n := range d.expect {
+					r3, err := lint.GlobalRegistry().Filter(lint.FilterOptions{ExcludeNames: []string{n}})
+					if err != nil {
+						continue
+					}
+					r3.SetConfiguration(cfg)
+					got3, p := zl.Lint(tg.obj, r3)
+					rep.Inc("states")
+					rep.Inc("transitions")
+					rep.Inc("validated")
+					rep.Inc("deselected_lint_runs")
+					art := map[string]interface{}{"op": "document_deselected", "seed": tg.sd.Name, "toml": d.text, "deselected": n}
+					if p != nil || got3 == nil {
+						rep.Violate("C11|"+n+"|deselected|panic", fmt.Sprintf("linting panicked under configuration %q with %s deselected: %v", d.desc, n, p), art)
+						continue
+					}
+					fatal := false
+					for name, b := range got3.Results {
+						bb := gotFull.Results[name] // what the same document gives this lint when nothing is deselected
+						if b != nil && b.Status == lint.Fatal {
+							fatal = true
+						}
+						switch {
+						case name == n:
+							rep.Violate("C11|"+n+"|deselected|result_for_deselected", fmt.Sprintf("a result named %s is reported although the lint is deselected (its section is in the configuration)", n), art)
+						case bb == nil:
+							rep.Violate("C11|"+n+"|deselected|extra_result", fmt.Sprintf("a result named %q appears that belongs to no selected lint [document %s, %s deselected]", name, d.desc, n), art)
+						case b != nil && bb.Status != b.Status:
+							rep.Violate("C11|"+name+"|deselected|changed_by_foreign_section", fmt.Sprintf("%s: %s under the document with every lint selected, %s under the same document once %s is deselected [document %s]", name, bb.Status, b.Status, n, d.desc), art)
+						}
+					}
+					if got3.FatalsPresent && !fatal {
+						rep.Violate("C11|"+n+"|deselected|fatal_flag", fmt.Sprintf("FatalsPresent is raised by a section of the deselected lint %s [document %s]", n, d.desc), art)
 					}
 				}
 			}
